@@ -79,6 +79,10 @@ type MdnsManager struct {
 	mux,
 	muxAnnounced sync.Mutex
 
+	// guards report, mdnsProvider and autoaccept, which are used by the goroutines
+	// of the application, of the hub and of the mDNS provider
+	muxFields sync.Mutex
+
 	// the reports are sent asynchronously, make sure an older list of entries
 	// is never reported after a newer one
 	muxReport       sync.Mutex
@@ -172,24 +176,27 @@ func (m *MdnsManager) Start(cb api.MdnsReportInterface) error {
 		// First try avahi, if not available use zerconf
 		provider := NewAvahiProvider(ifaceIndexes)
 		if provider.Start(false, m.processMdnsEntry) {
-			m.mdnsProvider = provider
+			m.setProvider(provider)
 		} else {
 			provider.Shutdown()
 
 			// Avahi is not availble, use Zeroconf
-			m.mdnsProvider = NewZeroconfProvider(ifaces)
-			if !m.mdnsProvider.Start(false, m.processMdnsEntry) {
+			zcProvider := NewZeroconfProvider(ifaces)
+			m.setProvider(zcProvider)
+			if !zcProvider.Start(false, m.processMdnsEntry) {
 				return errors.New("No mDNS provider available")
 			}
 		}
 	case MdnsProviderSelectionAvahiOnly:
 		// Only use Avahi
-		m.mdnsProvider = NewAvahiProvider(ifaceIndexes)
-		_ = m.mdnsProvider.Start(true, m.processMdnsEntry)
+		avProvider := NewAvahiProvider(ifaceIndexes)
+		m.setProvider(avProvider)
+		_ = avProvider.Start(true, m.processMdnsEntry)
 	case MdnsProviderSelectionGoZeroConfOnly:
 		// Only use Zeroconf
-		m.mdnsProvider = NewZeroconfProvider(ifaces)
-		_ = m.mdnsProvider.Start(true, m.processMdnsEntry)
+		zcProvider := NewZeroconfProvider(ifaces)
+		m.setProvider(zcProvider)
+		_ = zcProvider.Start(true, m.processMdnsEntry)
 	}
 
 	// on startup always start mDNS announcement
@@ -197,7 +204,9 @@ func (m *MdnsManager) Start(cb api.MdnsReportInterface) error {
 		return err
 	}
 
+	m.muxFields.Lock()
 	m.report = cb
+	m.muxFields.Unlock()
 
 	// catch signals
 	go func() {
@@ -217,12 +226,13 @@ func (m *MdnsManager) Shutdown() {
 	m.shutdownOnce.Do(func() {
 		m.UnannounceMdnsEntry()
 
-		if m.mdnsProvider == nil {
+		provider := m.provider()
+		if provider == nil {
 			return
 		}
 
-		m.mdnsProvider.Shutdown()
-		m.mdnsProvider = nil
+		provider.Shutdown()
+		m.setProvider(nil)
 	})
 }
 
@@ -230,7 +240,8 @@ func (m *MdnsManager) Shutdown() {
 // A CEM service should always invoke this on startup
 // Any other service should only invoke this whenever it is not connected to a CEM service
 func (m *MdnsManager) AnnounceMdnsEntry() error {
-	if m.mdnsProvider == nil {
+	provider := m.provider()
+	if provider == nil {
 		return nil
 	}
 
@@ -244,7 +255,7 @@ func (m *MdnsManager) AnnounceMdnsEntry() error {
 		"brand=" + m.deviceBrand,
 		"model=" + m.deviceModel,
 		"type=" + m.deviceType,
-		"register=" + fmt.Sprintf("%v", m.autoaccept),
+		"register=" + fmt.Sprintf("%v", m.isAutoAccept()),
 	}
 
 	// SHIP Requirements for Installation Process V1.0.0
@@ -261,7 +272,7 @@ func (m *MdnsManager) AnnounceMdnsEntry() error {
 
 	serviceName := m.serviceName
 
-	if err := m.mdnsProvider.Announce(serviceName, m.port, txt); err != nil {
+	if err := provider.Announce(serviceName, m.port, txt); err != nil {
 		logging.Log().Debug("mdns: failure announcing service", err)
 		return err
 	}
@@ -276,14 +287,43 @@ func (m *MdnsManager) AnnounceMdnsEntry() error {
 
 // Stop the mDNS announcement on the network
 func (m *MdnsManager) UnannounceMdnsEntry() {
-	if !m.isServiceAnnounced() || m.mdnsProvider == nil {
+	provider := m.provider()
+	if !m.isServiceAnnounced() || provider == nil {
 		return
 	}
 
-	m.mdnsProvider.Unannounce()
+	provider.Unannounce()
 	logging.Log().Debug("mdns: stop announcement")
 
 	m.setIsServiceAnnounce(false)
+}
+
+func (m *MdnsManager) provider() api.MdnsProviderInterface {
+	m.muxFields.Lock()
+	defer m.muxFields.Unlock()
+
+	return m.mdnsProvider
+}
+
+func (m *MdnsManager) setProvider(provider api.MdnsProviderInterface) {
+	m.muxFields.Lock()
+	defer m.muxFields.Unlock()
+
+	m.mdnsProvider = provider
+}
+
+func (m *MdnsManager) reportCB() api.MdnsReportInterface {
+	m.muxFields.Lock()
+	defer m.muxFields.Unlock()
+
+	return m.report
+}
+
+func (m *MdnsManager) isAutoAccept() bool {
+	m.muxFields.Lock()
+	defer m.muxFields.Unlock()
+
+	return m.autoaccept
 }
 
 func (m *MdnsManager) isServiceAnnounced() bool {
@@ -301,7 +341,9 @@ func (m *MdnsManager) setIsServiceAnnounce(value bool) {
 }
 
 func (m *MdnsManager) SetAutoAccept(accept bool) {
+	m.muxFields.Lock()
 	m.autoaccept = accept
+	m.muxFields.Unlock()
 
 	// if announcement is off, don't enforce a new announcement
 	if !m.isServiceAnnounced() {
@@ -559,7 +601,7 @@ func (m *MdnsManager) processMdnsEntry(elements map[string]string, name, host st
 		logging.Log().Debug("mdns: new - ski:", ski, "name:", name, "brand:", brand, "model:", model, "typ:", deviceType, "serial:", serial, "categories:", categoriesStr, "identifier:", identifier, "register:", register, "host:", host, "port:", port, "addresses:", addresses)
 	}
 
-	if m.report == nil || !updated {
+	if m.reportCB() == nil || !updated {
 		return
 	}
 
@@ -585,12 +627,12 @@ func (m *MdnsManager) reportMdnsEntries(newEntries bool) {
 		}
 		m.reportDelivered = counter
 
-		m.report.ReportMdnsEntries(entries, newEntries)
+		m.reportCB().ReportMdnsEntries(entries, newEntries)
 	}()
 }
 
 func (m *MdnsManager) RequestMdnsEntries() {
-	if m.report == nil {
+	if m.reportCB() == nil {
 		return
 	}
 
